@@ -19,3 +19,17 @@ package tablelib
 // reference implementation - #list may come from a __len metamethod - and then only
 // that position is touched.)
 //@   assert_before_call SetIndex inscope: typeis($idx.iface, int64) && $idx.AsInt() >= pos && (pos >= 1 || $idx.AsInt() == pos)
+
+// table.concat(list, sep, i, j) (manual §6.6): the elements list[i] .. list[j]
+// are read in increasing order, each exactly once, for all integers i <= j
+// including j == math.maxinteger: the index never wraps around, never passes j
+// and the loop ends (the distance to j decreases in every iteration).
+//@ func concat
+//@   prop C19 C04
+//@   arith int
+//@   requires t != nil && t.Runtime != nil && c != nil && c.GoFunction != nil && c.next != nil && 0 <= c.nArgs && c.nArgs <= len(c.args) && len(c.args) == 4
+//@   modifies everything()
+//@   exits ContextTerminationError
+//@   loop 1: invariant i <= j
+//@   loop 1: decreases mathint(j) - mathint(i)
+//@   assert_before_call Index inscope: typeis($k.iface, int64) && $k.AsInt() == i && i <= j
